@@ -163,7 +163,16 @@ func (s *Server) ServeFileTransfers(ctx context.Context, ln net.Listener) error 
 	for {
 		conn, err := ln.Accept()
 		if err != nil {
-			return err
+			// As in Serve: a failed Accept (for example "too many open files" while many transfer
+			// connections are open) must not end the transfer server, which would take the whole
+			// process down with it; only a cancelled context does.
+			select {
+			case <-ctx.Done():
+				return ctx.Err()
+			default:
+			}
+			s.Logger.Error("Error accepting file transfer connection", "err", err)
+			continue
 		}
 
 		go func() {
